@@ -100,6 +100,10 @@ func c10Scenarios() []c10Scenario {
 	out = append(out, s7)
 	s8 := c10Scenario{Name: "S8", What: "test-recording request served on the frame that triggers a motion recording (both files start in the same millisecond)", Cfg: base(), Cam: cam, Frames: c10Frames(cam, "ffffmmmffffffffffffffffffffffffff"), SnapAtFrame: 4, SameFrameStart: true}
 	out = append(out, s8)
+	c10 := base()
+	c10.DeviceName = strings.Repeat("n", 300) // CPTV strings hold at most 255 bytes: writing the header fails
+	s10 := c10Scenario{Name: "S10", What: "every recording start fails while the header is written (device name too long for a CPTV field)", Cfg: c10, Cam: cam, Frames: c10Frames(cam, "ffffmmmmffff")}
+	out = append(out, s10)
 	c9 := base()
 	c9.Throttle, c9.BucketSize, c9.MinRefill = true, "3s", "200ms"
 	c9.MaxSecs = 30
@@ -410,7 +414,7 @@ func TestVerif_C10(t *testing.T) {
 	defer c.Finish()
 	scratch := vEnv("VERIF_SCRATCH", t.TempDir())
 	scs := c10Scenarios()
-	quickSet := map[string]bool{"S1": true, "S3": true, "S4": true, "S5": true, "S6": true, "S8": true}
+	quickSet := map[string]bool{"S1": true, "S3": true, "S4": true, "S5": true, "S6": true, "S8": true, "S10": true}
 	for si, sc := range scs {
 		if !c.Thorough() && !quickSet[sc.Name] {
 			continue
